@@ -92,6 +92,9 @@ pub fn init_panic_hook() {
         } else {
             "<non-string panic>".to_string()
         };
+        if std::env::var("VERIF_BACKTRACE").is_ok() {
+            eprintln!("PANIC {msg} @ {loc}\n{}", std::backtrace::Backtrace::force_capture());
+        }
         LAST_PANIC.with(|p| *p.borrow_mut() = Some(format!("{msg} @ {loc}")));
     }));
 }
@@ -183,6 +186,7 @@ pub struct Stats {
     nontrivial: Mutex<HashSet<u64>>,
     classes: Mutex<BTreeMap<String, u64>>,
     samples: Mutex<Vec<Value>>,
+    known: Mutex<HashSet<String>>,
     frozen: AtomicBool,
 }
 
@@ -234,6 +238,14 @@ impl Stats {
                 s.push(f());
             }
         }
+    }
+    /// Records that an open known finding (by signature) was observed and excluded.
+    pub fn known_hit(&self, signature: &str) {
+        self.known.lock().unwrap().insert(signature.to_string());
+        self.class(&format!("excluded_known.{signature}"));
+    }
+    pub fn known_hits(&self) -> Vec<String> {
+        self.known.lock().unwrap().iter().cloned().collect()
     }
     pub fn freeze(&self, v: bool) {
         self.frozen.store(v, Ordering::Relaxed);
@@ -298,6 +310,10 @@ impl<P: Prop> DynProp for P {
     }
 
     fn run(&self, run: &RunCtx) -> Vec<Found> {
+        if self.cases(run.tier) == 0 {
+            // replay-only sub-check (used by corpus files)
+            return vec![];
+        }
         let total = self.cases(run.tier).max(1);
         let shards = self.shards(run.tier).clamp(1, total);
         let per = total.div_ceil(shards);
@@ -417,6 +433,13 @@ pub fn load_known(root: &Path) -> Vec<KnownFinding> {
         }
         Err(_) => vec![],
     }
+}
+
+/// Cached lookup used by engines to exclude open known findings from the campaign.
+pub fn known_open(property: &str, signature: &str) -> bool {
+    static KNOWN: OnceLock<Vec<KnownFinding>> = OnceLock::new();
+    let known = KNOWN.get_or_init(|| load_known(&verif_root()));
+    known.iter().any(|k| k.status == "open" && k.property == property && k.signature == signature)
 }
 
 pub fn is_known_open(known: &[KnownFinding], property: &str, signature: &str) -> Option<KnownFinding> {
@@ -543,6 +566,12 @@ pub fn run_property(def: PropertyDef, tier: Tier, seed: u64, replay: Option<Path
         } else {
             let path = write_replay(&root, def.id, seed, idx, f);
             violations.push((f.clone(), path));
+        }
+    }
+
+    for sig in run.stats.known_hits() {
+        if let Some(k) = is_known_open(&known, def.id, &sig) {
+            known_hits.insert(k.signature.clone(), k);
         }
     }
 
